@@ -170,10 +170,11 @@ def check_delegation_subset(rep, f, names, rule="R16s"):
         if not b.trait or not b.trait.startswith("num_traits") or b.self_ty != TF:
             continue
         tr = b.trait.split("::")[-1]
-        if tr not in ("Float", "FloatCore", "Signed") or b.name not in names:
+        if b.name not in names:
             continue
         inh = "TwoFloat::" + RENAME.get(b.name, b.name)
-        if f.get(inh) is None:
+        ib = f.get(inh)
+        if ib is None or ib.mir["arg_count"] != b.mir["arg_count"]:
             continue
         inst = "%s::%s" % (tr, b.name)
         try:
@@ -196,9 +197,13 @@ def check_delegation(rep, f):
         if not b.trait or not b.trait.startswith("num_traits") or b.self_ty != TF:
             continue
         tr = b.trait.split("::")[-1]
-        if tr not in ("Float", "FloatCore", "Signed", "Zero", "One", "Bounded", "FloatConst"):
-            continue
         name = b.name
+        if tr not in ("Float", "FloatCore", "Signed", "Zero", "One", "Bounded", "FloatConst"):
+            # any other num_traits impl (Euclid, ...): a method that has an inherent namesake with the same
+            # arity is an entry point to that function and must return exactly what it returns
+            ib = f.get("TwoFloat::" + RENAME.get(name, name))
+            if ib is None or ib.mir["arg_count"] != b.mir["arg_count"] or tr in ("Inv", "Pow"):
+                continue
         inst = "%s::%s" % (tr, name)
         try:
             t = H.tree_of(f, b, "op", inline_extra=("<TwoFloat as core::default::Default>::default",))
@@ -221,9 +226,9 @@ def check_delegation(rep, f):
             exp = tfagg(zero, zero)
         elif tr == "One" and name == "one":
             exp = tfagg(one, zero)
-        elif name == "mul_add":
+        elif name == "mul_add" and f.get("TwoFloat::mul_add") is None:
             exp = OP("add", TF, TF, OP("mul", TF, TF, params[0], params[1]), params[2])
-        elif name == "abs_sub":
+        elif name == "abs_sub" and f.get("TwoFloat::abs_sub") is None:
             exp = mk("call", "TwoFloat::abs", OP("sub", TF, TF, params[0], params[1]))
         else:
             inh = "TwoFloat::" + RENAME.get(name, name)
@@ -282,6 +287,8 @@ def check_C10(ctx, rep):
     check_identities(rep, f)
     check_delegation(rep, f)
     check_sum(ctx, rep, f)
+    from .rules_arith import check_product
+    check_product(ctx, rep, f, rule="R7p")
     rep.floor("R13", len([o for o in rep.obl if o["rule"] == "R13"]), 68, "operator spellings")
     rep.floor("R14", len([o for o in rep.obl if o["rule"] == "R14"]), 20, "compound assignments")
     rep.floor("R15", len([o for o in rep.obl if o["rule"] == "R15" and o["status"] == "ok"]), 10, "identities")
